@@ -174,6 +174,16 @@ def pool():
                  "sections": [{"df": tagged(2, 2), "body": {}, "colheader": "default"},
                               {"df": tagged(3, 3, base=2), "body": {}, "colheader": "default"},
                               {"df": tagged(2, 2, base=5), "body": {}, "colheader": "none"}]}
+    # column names whose lists run together ambiguously when joined with ", " (auto-derived header rows)
+    for nm, names2 in (("names_a", ["Placebo, n", "%"]), ("names_b", ["Placebo", "n, %"])):
+        P[nm] = {"kind": "table", "title": TT, "body": {},
+                 "df": {"cols": [{"name": names2[0], "dtype": "str", "values": ["d0c0", "d1c0"]},
+                                 {"name": names2[1], "dtype": "str", "values": ["d0c1", "d1c1"]}]}}
+    # a title whose lines have colours of their own
+    P["title_vec"] = {"kind": "table", "df": tagged(3, 2), "body": {"text_color": "gold"},
+                      "title": {"text": ["TT0", "TT1", "TT2"], "text_color": ["red", "blue", "darkgreen"],
+                                "text_background_color": ["", "khaki", ""]},
+                      "page_footer": {"text": ["PF0", "PF1"], "text_color": ["navy", "tomato"]}}
     # the default colour spelled out ("black") next to real colours
     P["blk_a"] = {"kind": "table", "df": tagged(3, 3), "body": {"text_color": ["black", "red", "black"],
                                                                 "text_background_color": [["", "black", "wheat"]]},
